@@ -386,6 +386,70 @@ func genRect(t *rapid.T, r cmapmodel.Range, multi bool, maxCodes uint64) cmapmod
 	return out
 }
 
+// genMalformed draws the bounds of a malformed range inside r.  In every
+// byte position the two bounds are at most 3 apart (small bounding box).
+// Kind 0 ("non-rectangular"): First <= Last as byte strings, but a later byte
+// of First is greater than that of Last, e.g. <00F0>..<010F>.  Kind 1
+// ("reversed"): First > Last as byte strings.
+func genMalformed(t *rapid.T, r cmapmodel.Range) (first, last []byte, ok bool) {
+	n := r.Len()
+	var wide []int // positions where the range has at least two values
+	for i := 0; i < n; i++ {
+		if r.High[i] > r.Low[i] {
+			wide = append(wide, i)
+		}
+	}
+	if len(wide) == 0 {
+		return nil, nil, false
+	}
+	kind := rapid.IntRange(0, 2).Draw(t, "mal-kind") // 0, 1: non-rectangular; 2: reversed
+	if len(wide) < 2 {
+		kind = 2
+	}
+	first, last = make([]byte, n), make([]byte, n)
+	// pair draws two values a <= b (a < b if strict) in position i
+	pair := func(i int, strict bool) (byte, byte) {
+		lo, hi := int(r.Low[i]), int(r.High[i])
+		a := lo + rapid.IntRange(0, hi-lo).Draw(t, "mal-a")
+		if strict && a == hi {
+			a--
+		}
+		d := rapid.IntRange(0, 3).Draw(t, "mal-d")
+		if strict && d == 0 {
+			d = 1
+		}
+		b := min(a+d, hi)
+		return byte(a), byte(b)
+	}
+	var lead, rev int // leading position which decides the order; a reversed later position
+	if kind <= 1 {
+		k := rapid.IntRange(0, len(wide)-2).Draw(t, "mal-lead")
+		lead = wide[k]
+		rev = wide[k+1+rapid.IntRange(0, len(wide)-k-2).Draw(t, "mal-rev")]
+	} else {
+		lead = wide[rapid.IntRange(0, len(wide)-1).Draw(t, "mal-lead")]
+		rev = lead
+	}
+	for i := 0; i < n; i++ {
+		switch {
+		case i < lead: // equal
+			a, _ := pair(i, false)
+			first[i], last[i] = a, a
+		case i == lead && kind <= 1: // First < Last here
+			first[i], last[i] = pair(i, true)
+		case i == rev: // First > Last here
+			last[i], first[i] = pair(i, true)
+		default: // any order
+			a, b := pair(i, false)
+			if rapid.Bool().Draw(t, "mal-swap") {
+				a, b = b, a
+			}
+			first[i], last[i] = a, b
+		}
+	}
+	return first, last, true
+}
+
 func genNotdef(t *rapid.T, space cmapmodel.Set) *Notdef {
 	nd := &Notdef{}
 	var rects []cmapmodel.Range
@@ -495,6 +559,41 @@ func genRaw(t *rapid.T) Case {
 		}
 		c.Raw = append(c.Raw, rr)
 	}
+	// malformed ranges: some byte of First is greater than the same byte of
+	// Last.  Both bounds are codes of one code space range, so every code of
+	// the bounding box is a valid code.
+	for i := []int{0, 0, 0, 1, 1, 2}[rapid.IntRange(0, 5).Draw(t, "nmalformed")]; i > 0; i-- {
+		r := space[rapid.IntRange(0, len(space)-1).Draw(t, "mal-space")]
+		first, last, ok := genMalformed(t, r)
+		if !ok {
+			continue
+		}
+		box := boundingBox(first, last)
+		for _, q := range rects {
+			if cmapmodel.Overlap(q, box) {
+				ok = false
+			}
+		}
+		if !ok || box.NumCodes() > budget {
+			continue
+		}
+		rects = append(rects, box)
+		budget -= box.NumCodes()
+		rr := RawRange{First: gen.Hex(first), Last: gen.Hex(last)}
+		if !text {
+			rr.CID = rapid.Uint32Range(1, 60000).Draw(t, "mal-cid")
+		} else {
+			for k := rapid.IntRange(1, 3).Draw(t, "mal-nvalues"); k > 0; k-- {
+				rr.Texts = append(rr.Texts, Text{drawRune(t, "mal-rune")})
+			}
+		}
+		c.Raw = append(c.Raw, rr)
+	}
+	if len(c.Raw) > 1 && rapid.Bool().Draw(t, "mal-first") {
+		// entry order matters to first-match lookups: put the last range first
+		c.Raw[0], c.Raw[len(c.Raw)-1] = c.Raw[len(c.Raw)-1], c.Raw[0]
+	}
+
 	// singles outside the rectangles
 	seen := map[string]bool{}
 	for i := rapid.IntRange(0, 4).Draw(t, "nsingles"); i > 0; i-- {
@@ -684,6 +783,15 @@ func classify(c *Case) (bool, []string) {
 	if c.Kind == "cid-raw" || c.Kind == "tu-raw" {
 		if o.multiByteRawRange {
 			cls = append(cls, "multi-byte-range")
+		}
+		if o.nonRect {
+			cls = append(cls, "non-rect-range")
+		}
+		if o.reversed {
+			cls = append(cls, "reversed-range")
+		}
+		if o.extractRejected {
+			cls = append(cls, "extract-rejects-reversed")
 		}
 		return o.enumerated > 0, cls
 	}
